@@ -333,13 +333,15 @@ Ltac step_tail a0 s0 H :=
   (let pf := get_pred_pf H %s in pose proof pf as Hs);
   cbv beta in Hc, Ha, Hs; unfold cyc in Hc; unfold sp_after in Hs;
   cbv zeta; gs;
-  match goal with |- safe _ (if ?c then _ else _) => let E := fresh "E" in destruct c eqn:E; cbv beta;
+  (* two spellings of the return: "if cpu.Stopped { return n, true }; return n, false" and "return n, cpu.Stopped" *)
+  let fin := ltac:(fun pre =>
     (split;
-     [ unfold StepPost; exists (get %s s0); gs; rewrite E;
+     [ unfold StepPost; exists (get %s s0); gs; pre;
        split; [reflexivity|]; split; [lia|]; split; [reflexivity|]; split; [rewrite <- Ha; reflexivity|];
        destruct Hs as [Hs|[_ Hs]]; [left | right]; exact Hs
-     | apply inv_set; [ apply inv_set; [ do 4 (eapply inv_ovr_base in H); exact H | prove_B ] | prove_B ] ])
-  end.
+     | apply inv_set; [ apply inv_set; [ do 4 (eapply inv_ovr_base in H); exact H | prove_B ] | prove_B ] ])) in
+  first [ match goal with |- safe _ (if ?c then _ else _) => let E := fresh "E" in destruct c eqn:E; cbv beta; fin ltac:(rewrite E) end
+        | (cbv beta; fin ltac:(idtac)) ].
 
 Ltac set_hook Q f v s0 b H ::=
   lazymatch f with
